@@ -274,3 +274,24 @@ def get_all_roots_c(cx):
             return MSUM(res, z3.Length(res)) != DEG.t           # refused only when roots were lost
         return z3.BoolVal(True)                                  # errors of the CAS itself (all_roots for degree >= 5) are passed on
     cx.raises(exc)
+
+
+@contract('unsolvable_analysis/unsolv_inv_synthesizer.py', 'UnsolvInvSynthesizer.__get_init_value_candidate__', ['C14'])
+def init_value_candidate(cx):
+    """the initial value of the candidate  sum_j m_j * u_j  (m_j a monomial in the program variables, u_j its unknown coefficient) is
+    sum_j E(m_j at n = 0) * u_j  with the initial expectation of each monomial taken AS A WHOLE by RecBuilder.get_initial_value
+    (E(x0**2) is not E(x0)**2 for a random initial value)."""
+    TS, mk, (acc_a, acc_b) = tuple_sort([DR, DR])
+    INIT = z3.Function('initial_expectation_of_monomial', R, R); MUL = z3.Function('times', R, R, R)
+    cand = cx.real('candidate'); pairs = cx.seq('pairs', DTuple(DR, DR))
+    rb = cx.obj('RecBuilder', program=cx.obj('Program', variables=V('opaque')))
+    cx.param(cls=cx.ref('cls'), candidate=cand, rec_builder=rb)
+    cx.call('get_monoms', lambda ex, st, r, a, kw: pairs, trusted='get_monoms(candidate, program variables as constants): (variable monomial, unknown coefficient) pairs (contract in contracts/expressions.py)')
+    cx.call('get_initial_value', lambda ex, st, r, a, kw: VR(INIT(toreal(a[0]))), trusted='RecBuilder.get_initial_value contract')
+    cx.set_hook('binop', lambda ex, st, op, a, b: VR(MUL(toreal(a), toreal(b))) if op == 'Mult' else None)
+    cx.call('xreplace', lambda ex, st, r, a, kw: VR(z3.Function('after_substitution', R, R)(toreal(r))))          # any substitution: some other expression
+    sq = z3.Const('sq', z3.SeqSort(TS)); g = z3.Int('g')
+    SUMI = z3.RecFunction('sum_of_initial_values', z3.SeqSort(TS), I, R)
+    z3.RecAddDefinition(SUMI, [sq, g], z3.If(g <= 0, z3.RealVal(0), SUMI(sq, g - 1) + MUL(INIT(acc_a(sq[g - 1])), acc_b(sq[g - 1]))))
+    cx.invariant(0, lambda st: toreal(st['ans']) == SUMI(pairs.t, st['$i0'].t))
+    cx.ensures(lambda st, r: toreal(r) == SUMI(pairs.t, z3.Length(pairs.t)))
